@@ -5,6 +5,7 @@
 
 mod engine;
 mod c05;
+mod diff_suites;
 mod gen;
 mod lfu_suites;
 mod model;
@@ -119,9 +120,16 @@ fn main() {
                 variant,
             };
             let out = match ctx.prop.as_str() {
+                "C13" => {
+                    let mut o = engine_suite(&ctx);
+                    diff_suites::c13_diff_suite(&ctx, &mut o);
+                    o
+                }
                 "C01" | "C02" | "C03" | "C04" | "C06" | "C07" | "C08" | "C09" | "C10" | "C12"
-                | "C13" | "C14" | "C15" => engine_suite(&ctx),
+                | "C14" | "C15" => engine_suite(&ctx),
                 "C05" => c05::c05_suite(&ctx),
+                "C16" => diff_suites::c16_suite(&ctx),
+                "C17" => diff_suites::c17_suite(&ctx),
                 "C11" => lfu_suites::c11_suite(&ctx),
                 "C20" => lfu_suites::c20_suite(&ctx),
                 other => {
@@ -172,6 +180,24 @@ fn main() {
                 if v.len() == 4 {
                     opts.seeds = [v[0], v[1], v[2], v[3]];
                 }
+            }
+            let mut extra = std::collections::BTreeMap::new();
+            for k in ["clone-at", "fork-at", "keep-clone", "swaps", "inserted"] {
+                if let Some(v) = arg(&args, &format!("--{}", k)) {
+                    extra.insert(k.to_string(), v.to_string());
+                }
+            }
+            if prop == "C16" || prop == "C17" || (prop == "C13" && extra.contains_key("inserted")) {
+                track::set_heapy(flag(&args, "--heapy"));
+                println!("config: {}  keys: {}  ops: {}  extra: {:?}", cfg.describe(), kt.name(), ops_to_string(&ops), extra);
+                match diff_suites::replay(&prop, &cfg, kt, &ops, opts.seeds, &extra) {
+                    Some((rule, detail, step)) => {
+                        println!("@@VIOLATION {}", J::obj().set("property", J::s(prop.clone())).set("rule", J::s(rule)).set("detail", J::s(detail)).set("step", J::u(step)));
+                        println!("@@REPLAY {}", J::obj().set("violations", J::U(1)));
+                    }
+                    None => println!("@@REPLAY {}", J::obj().set("violations", J::U(0))),
+                }
+                return;
             }
             opts.lookup_audit = opts.props.c03;
             opts.record_sample = true;
